@@ -47,6 +47,7 @@ type Msg struct {
 	Cid      string // wire correlation id
 	Payload  []byte // protocol-level payload (CBOR of the round message, or of the echo wrapper)
 	Occ      int    // occurrence index of (Cid, From, To) in this execution, from 0
+	Seq      int    // global send sequence number in this execution (order inside one SendTo is Go-map order: compare per Cid only)
 }
 
 // Key identifies a message slot independent of Go map iteration order.
@@ -136,7 +137,7 @@ func (e *Endpoint) Send(_ context.Context, to sharing.ID, raw []byte) error {
 		return nil
 	}
 	k := fmt.Sprintf("%s|%d>%d", cid, e.id, to)
-	m := &Msg{From: e.id, To: to, Cid: cid, Payload: append([]byte{}, payload...), Occ: n.occ[k]}
+	m := &Msg{From: e.id, To: to, Cid: cid, Payload: append([]byte{}, payload...), Occ: n.occ[k], Seq: len(n.Trace)}
 	n.occ[k]++
 	n.Trace = append(n.Trace, m)
 	if n.OnSend != nil {
